@@ -1,0 +1,33 @@
+//! Verification hooks for property C43 (compiled only with `--cfg libp2p_verif`).
+//!
+//! Declared as a child of `handler` (`HandlerEvent` is not nameable outside the crate).
+//! Only *calls* existing code.  `HandlerEvent::PutRecord` injection and the `HandlerIn`
+//! rendering are shared with `verif_c42`.
+
+use libp2p_identity::PeerId;
+use libp2p_swarm::{ConnectionId, NetworkBehaviour};
+
+use super::HandlerEvent;
+use crate::{
+    behaviour::Behaviour,
+    protocol::KadPeer,
+    record::{self, store::RecordStore},
+};
+
+/// Feeds `HandlerEvent::AddProvider { key, provider }` from `source` into the behaviour, exactly as
+/// the connection handler does after decoding an inbound ADD_PROVIDER.
+pub fn inject_add_provider<S>(
+    behaviour: &mut Behaviour<S>,
+    source: PeerId,
+    connection: ConnectionId,
+    key: record::Key,
+    provider: KadPeer,
+) where
+    S: RecordStore + Send + 'static,
+{
+    behaviour.on_connection_handler_event(
+        source,
+        connection,
+        HandlerEvent::AddProvider { key, provider },
+    )
+}
